@@ -26,7 +26,7 @@ func (op *Op) historyOp() bool {
 	switch op.Kind {
 	case "AppendFn", "AppendM", "Sprintf", "Decompose", "ComposeRow", "Scribble",
 		"UnmarshalJSON", "UnmarshalText", "UnmarshalBinary", "Compose", "Sscan", "ScanState",
-		"Int", "Rat", "Float", "JSONRT", "JSONDoc":
+		"Int", "Rat", "Float", "JSONRT", "JSONRT2", "JSONDoc":
 		return true
 	}
 	return false
